@@ -5,6 +5,8 @@ extern crate rustc_lexer;
 mod c07;
 mod c09;
 mod c12;
+mod c16;
+mod shape_corr;
 mod corpus;
 mod gen;
 mod sweep;
@@ -36,6 +38,7 @@ fn main() {
         "c07" => c07::run(&tier, seed, &out),
         "c09" => c09::run(&tier, seed, &out),
         "c12" => c12::run(&tier, seed, &out),
+        "c16" => c16::run(&tier, seed, &out),
         "probe" => probe(&out),
         "sweep" => sweep::run(&args.get(2).cloned().unwrap_or_default(), seed, std::env::var("LIMIT").ok().and_then(|s| s.parse().ok()).unwrap_or(0), std::env::var("TIMEOUT_S").ok().and_then(|s| s.parse().ok()).unwrap_or(20)),
         _ => { eprintln!("unknown property {}", prop); 2 }
